@@ -1,11 +1,11 @@
 SPECIFICATION Spec
 CONSTANTS
  Top = 4
- MaxInit = 4
- MaxDepth = 6
+ MaxInit = 1
+ MaxDepth = 4
  MergeRule = "adjacent"
  Ops = {"Split","Merge","StopPeer","Remove","SetState","Rewrite","Reload"}
- Script <- NoScript
+ Script <- LifeScript
  Emit = TRUE
 INVARIANT EmitHist
 CHECK_DEADLOCK FALSE
